@@ -449,7 +449,7 @@ func C02(c *vh.Ctx) {
 	}
 	c.Bound("a_pattern_nodes_max", pmax)
 	c.Bound("a_message_nodes_max", mmax)
-	plantP, plantD := c.Pick(4, 5), c.Pick(2, 2)
+	plantP, plantD := 4, 2
 	c.Bound("b_pattern_nodes_max", plantP)
 	c.Bound("b_distractors_max", plantD)
 	if c.Shard == 0 {
@@ -473,65 +473,75 @@ func C02(c *vh.Ctx) {
 		}
 	}
 	// (b)
-	plantPats := ps.UpTo(plantP)
-	for i, p := range plantPats {
-		if !c.Mine(uint64(i)) {
-			continue
-		}
-		if c.Expired() {
-			return
-		}
-		if dupScalars(p) {
-			continue
-		}
-		for _, sigma := range assignments(p) {
-			if !plantedOK(p, sigma) {
+	type plantTier struct{ p, d int }
+	tiers := []plantTier{{plantP, plantD}}
+	if !c.Quick() {
+		// thorough: larger patterns with fewer distractors, and the quick patterns with more
+		tiers = []plantTier{{5, 1}, {4, 3}}
+		c.Bound("b_tiers", "patterns<=5 nodes with <=1 distractor; patterns<=4 nodes with <=3 distractors")
+	}
+	for _, pt := range tiers {
+		plantD := pt.d
+		plantPats := ps.UpTo(pt.p)
+		for i, p := range plantPats {
+			if !c.Mine(uint64(i)) {
 				continue
 			}
-			// distractors go around the planted values, never inside them: an unbound variable
-			// binds the whole message part, so growing that part changes the assignment itself
-			ph := M{}
-			for v := range sigma {
-				ph[v] = "\x00planted:" + v
+			if c.Expired() {
+				return
 			}
-			m0 := instantiate(p, ph)
-			level := []interface{}{m0}
-			seen := map[string]bool{rmatch.Canon(m0): true}
-			all := []interface{}{m0}
-			for d := 0; d < plantD; d++ {
-				var next []interface{}
-				for _, m := range level {
-					for _, dm := range distractions(m) {
-						k := rmatch.Canon(dm)
-						if !seen[k] {
-							seen[k] = true
-							next = append(next, dm)
-						}
-					}
-				}
-				all = append(all, next...)
-				level = next
-				if len(all) > 4000 {
-					break
-				}
+			if dupScalars(p) {
+				continue
 			}
-			// pre-bindings: none, and each single variable
-			bs := []M{{}}
-			for v, val := range sigma {
-				bs = append(bs, M{v: val})
-			}
-			for _, mph := range all {
-				substituteClash = false
-				m := substitute(mph, sigma)
-				if substituteClash || dupScalars(m) {
+			for _, sigma := range assignments(p) {
+				if !plantedOK(p, sigma) {
 					continue
 				}
-				for _, b := range bs {
-					completeOne(c, c02Case{P: p, M: m, B: b, Sigma: sigma}, true)
-					c.Count("b_evaluations", 1)
+				// distractors go around the planted values, never inside them: an unbound variable
+				// binds the whole message part, so growing that part changes the assignment itself
+				ph := M{}
+				for v := range sigma {
+					ph[v] = "\x00planted:" + v
 				}
+				m0 := instantiate(p, ph)
+				level := []interface{}{m0}
+				seen := map[string]bool{rmatch.Canon(m0): true}
+				all := []interface{}{m0}
+				for d := 0; d < plantD; d++ {
+					var next []interface{}
+					for _, m := range level {
+						for _, dm := range distractions(m) {
+							k := rmatch.Canon(dm)
+							if !seen[k] {
+								seen[k] = true
+								next = append(next, dm)
+							}
+						}
+					}
+					all = append(all, next...)
+					level = next
+					if len(all) > 4000 {
+						break
+					}
+				}
+				// pre-bindings: none, and each single variable
+				bs := []M{{}}
+				for v, val := range sigma {
+					bs = append(bs, M{v: val})
+				}
+				for _, mph := range all {
+					substituteClash = false
+					m := substitute(mph, sigma)
+					if substituteClash || dupScalars(m) {
+						continue
+					}
+					for _, b := range bs {
+						completeOne(c, c02Case{P: p, M: m, B: b, Sigma: sigma}, true)
+						c.Count("b_evaluations", 1)
+					}
+				}
+				c.Count("planted_assignments", 1)
 			}
-			c.Count("planted_assignments", 1)
 		}
 	}
 }
